@@ -460,10 +460,14 @@ static void oracleC01(W& w, const CaseSpec& c, const Built& b, const std::vector
         Decoder d;
         for (auto& f : frames)
         {
-            uint8_t* copy = static_cast<uint8_t*>(malloc(f.size() ? f.size() : 1));
+            // the frame is handed over flush against the end of its own heap block, at an address whose alignment varies with the
+            // frame size (size % 8: 8-byte aligned only now and then, as a frame behind a 14-byte Ethernet header is)
+            const size_t off = f.size() % 8;
+            uint8_t* block = static_cast<uint8_t*>(malloc(f.size() + off ? f.size() + off : 1));
+            uint8_t* copy = block + off;
             memcpy(copy, f.data(), f.size());
             auto pk = d.decode(copy, f.size());
-            free(copy);
+            free(block);
             for (auto& p : pk)
             {
                 if (!p)
